@@ -18,24 +18,52 @@ What is proved, and for whom:
 * requesters that do a raw `<-w.Receive()`: `_partial` – never the closed channel as long as
   their own writer has not been closed (`C03.never_nil_raw_partial`); on their own closed writer
   they can see it (`C03.never_nil_raw_full_false` – known finding `close-discards-buffered` (i));
-* liveness (`C03.teardown_releases_partial`) is about the requester of a writer that has itself
-  been torn down (closed, or all its readers closed);
+* liveness is about the requester of a writer that has itself been torn down (closed, or all
+  its readers closed).  State by state (`C03.Releases`): while anything is owed a fair step is
+  enabled, every fair step strictly decreases the measure `μ`, nothing new becomes owed, some run
+  of at most `μ` fair steps ends with nothing owed.  Under any scheduler
+  (`C03.other_steps_do_not_increase`, `C03.ReleasesUnderAnySchedule`): *no* step of any thread on
+  any writer, reader, node or sink – steps on the torn-down writer itself included – and no
+  further teardown action increases `μ` or ends the torn-down condition; hence in every
+  continuation the enabled fair steps of the writer that are taken plus `μ` at the end are at
+  most `μ` at teardown time, and after that many of them – whatever was interleaved – the
+  requester is owed nothing.
+  - `C03.teardown_releases`: a closed writer (`Writer.Close`, `OutPort.Close`, node close,
+    process exit) – every continuation.  Full statement.
+  - `C03.teardown_releases_readers_partial`: a writer torn down only through its readers
+    (`Reader.Close`, `InPort.Close`) – every continuation that does not wire that writer to a
+    further reader.  `Writer.Link` on it can raise `μ` (`C03.relink_can_increase`: the stale drop
+    notice of a re-linked reader is counted again; it is then ignored) and, with an open reader,
+    ends the torn-down condition; the requester is released all the same in the concrete
+    histories (`C03.relink_released`, replayed on the code), the general statement with `link`
+    is `C03.teardown_releases_readers_full`, not proved.  The Go code links a writer only inside
+    `OutPort.Open`.
+  **What remains assumed is fairness only**: weak fairness of the Go scheduler towards the fair
+  steps of the torn-down writer (the goroutines `Reader.Close` spawned run, a popped answer is
+  delivered, the pump goroutine of a closed writer returns, the parked requester is handed what
+  is there).  While anything is owed that set is continuously enabled.
 * a requester *upstream of a node* whose out-writer alone is closed (`fix: node backward loops
   drop what is still pending when their writer's Receive closes`): the node's backward loop, when
   the channel closes, resolves what its tracer still awaits as `dropped` (`bwd` on the closed
   channel = `Tracer.Drop`).  `C03.teardown_releases_upstream_partial`: within `buffered + 2`
   steps of the node's own goroutines nothing the node had taken from its in-reader is left
   waiting – every such request has been answered upstream, in read order.
-  `C03.teardown_releases_upstream_awaits_partial`: for histories with consistent wiring in which
-  only the node answers on its in-reader, the
-  upstream writer then awaits from that reader only the requests the forward loop has not yet
-  taken (invariant `Upstream`: `pend r = inbox + reads` while `r` is open), and its machine is the
-  image of a C01 specification state whose rows owe `r` exactly those.
+  `C03.upstream_other_steps_do_not_increase`: under any scheduler – no step of anybody increases
+  `nu = buffered + [pump running] + [a taken request waits]`, the node's two fair steps decrease
+  it, so after `buffered + 2` of them, whatever was interleaved, nothing is left waiting
+  (assumed: weak fairness towards the node's backward loop and the closed writer's pump
+  goroutine).  `_partial` of the first: it ends at the node's `answer` calls.
+  `C03.teardown_releases_upstream_awaits_partial` / `C03.upstream_awaits_any_schedule_partial`:
+  for histories with consistent wiring in which only the node answers on its in-reader, the
+  upstream writer awaits from that reader exactly what the node holds (invariant `Upstream`:
+  `pend r = inbox + reads` while `r` is open) – in every state of every continuation –, so once
+  the node holds nothing taken it awaits only the requests the forward loop has not yet taken,
+  and its machine is the image of a C01 specification state whose rows owe `r` exactly those.
 
 `RunNoSteal h`: the requester is the only consumer of its writer's `Receive()` channel (no step
 of `h` is a `steal`).
 -/
-import Uniflow.Proofs.TeardownNode
+import Uniflow.Proofs.TeardownUp
 import Uniflow.Proofs.DropCommute
 
 open Uniflow Uniflow.Writer Uniflow.Teardown Uniflow.TeardownProofs Uniflow.WriterProofs
@@ -286,25 +314,24 @@ theorem C03.frame_nonvacuous :
     footprint { outPorts := [[0, 2]] } {} (.down (.outPortClose 0)) = [0, 2] := by
   decide
 
-/-! ## Liveness (measure argument under an explicit fairness assumption) -/
+/-! ## Liveness (measure argument; what is assumed is fairness of the Go scheduler) -/
 
 /-- What is claimed of a torn-down writer `c` (`TornDown`: closed itself, or every reader linked
-to it closed).
+to it closed), state by state.
 
 **Fairness assumption (not proved, it is about the Go scheduler):** a fair step that is enabled
 is eventually taken – the goroutines `Reader.Close` spawned run (`deliverDrop`), a goroutine
 that has popped a request inside `Reader.Receive` goes on into `(*Writer).receive` (`deliver`),
 the pump goroutine of a closed writer returns (`pumpExit`), and a requester parked in
-`<-Receive()` is handed a buffered packet or the closed channel (`recv`).  Under it the facts
-below give release after at most `μ` fair steps: (a) while the requester is owed anything a fair
-step is enabled; (b) every fair step strictly decreases the measure `μ = 2·pending rows +
-buffered packets + held-back drop notices + answers in flight + responses still owed + [pump
-goroutine still running]` – an answer in flight decreases it whether it is credited to its row
-or ignored (stale link generation, row gone); (c) a torn-down
+`<-Receive()` is handed a buffered packet or the closed channel (`recv`).  The facts: (a) while
+the requester is owed anything a fair step is enabled; (b) every fair step strictly decreases the
+measure `μ = 2·pending rows + buffered packets + held-back drop notices + answers in flight +
+responses still owed + [pump goroutine still running]` – an answer in flight decreases it whether
+it is credited to its row or ignored (stale link generation, row gone); (c) a torn-down
 writer accepts no further write, so nothing new becomes owed; (d) spelled out as a run: some
 sequence of at most `μ` fair steps ends with nothing owed, and each result on the way is a
 packet the writer emitted or – writer closed – the closed channel, which `Send` reports as
-`dropped`. -/
+`dropped`.  That no step of anybody else undoes this is `C03.ReleasesUnderAnySchedule`. -/
 def C03.Releases (c : Comp) : Prop :=
   (c.outstanding > 0 → c.p.buf ≠ [] ∨ c.p.exited = true ∨
     (c.w.done = false ∧ ∃ r ∈ c.w.readers, (c.w.drops r).length > 0 ∨ (c.w.flight r).length > 0)) ∧
@@ -317,68 +344,273 @@ def C03.Releases (c : Comp) : Prop :=
     ∀ x ∈ (runC .discard c cs).got, (∃ a, x = .got a ∧ a ∈ (runC .discard c cs).p.pushed) ∨
       (x = .closed ∧ (runC .discard c cs).w.done = true))
 
-/-- The full statement: every torn-down writer of every reachable state releases its requester. -/
-def C03.teardown_releases_full : Prop :=
-  ∀ (t : Topo) (h : List Teardown.Step), RunNoSteal h → ∀ w,
-    TornDown ((Teardown.run .discard t {} h).comp w) → C03.Releases ((Teardown.run .discard t {} h).comp w)
+/-- **The scheduler-independent statement.**  `s` is a state in which writer `w` is torn down;
+`ok h'` says which continuations are considered.  For every such continuation `h'` – any
+interleaving of steps of any thread on any writer, reader, node or sink, `w` itself included, and
+of further teardown actions:
+* `w` is still torn down at the end;
+* (number of enabled fair steps of `w` taken along `h'`) + (`μ` at the end) ≤ (`μ` at the
+  start) – no step of anybody increases `μ`, each enabled fair step of `w` decreases it
+  (`fairTaken` counts the steps `prim w x` of `h'` with `fairEnabled (comp w) x` in the state they
+  are taken in);
+* so once `μ`-at-teardown-time fair steps of `w` have been taken, whatever else ran in between,
+  the requester of `w` is owed nothing: it has been handed every response;
+* as long as it is owed something a fair step of `w` is enabled – the set of fair steps of `w`
+  is continuously enabled, so weak fairness of the scheduler towards that set is all that is
+  assumed: under it at most `μ` of them are ever taken, then nothing is owed;
+* every result the requester has obtained is a packet the writer emitted or – writer closed –
+  the closed channel. -/
+def C03.ReleasesUnderAnySchedule (ok : List Teardown.Step → Prop) (t : Topo) (s : Sys) (w : WId) : Prop :=
+  ∀ h' : List Teardown.Step, ok h' →
+    TornDown ((Teardown.run .discard t s h').comp w) ∧
+    fairTaken t w s h' + mu ((Teardown.run .discard t s h').comp w) ≤ mu (s.comp w) ∧
+    (mu (s.comp w) ≤ fairTaken t w s h' → ((Teardown.run .discard t s h').comp w).outstanding = 0) ∧
+    (((Teardown.run .discard t s h').comp w).outstanding > 0 →
+      ∃ x, fairEnabled ((Teardown.run .discard t s h').comp w) x = true) ∧
+    (∀ x ∈ ((Teardown.run .discard t s h').comp w).got,
+      (∃ a, x = .got a ∧ a ∈ ((Teardown.run .discard t s h').comp w).p.pushed) ∨
+      (x = .closed ∧ ((Teardown.run .discard t s h').comp w).w.done = true))
 
-/-- **Teardown releases** – for every history (the hypothesis `NoRelinkRun` of the earlier version
-is gone: since the link generations C01's simulation holds unconditionally, so every reachable
-writer machine is `Backed`).  `_partial` with respect to `C03.teardown_releases_full` read as a
-liveness claim: not proved is that steps of *other* threads on the same writer (late answers,
-`closeR` of an unlinked reader, …) never increase `μ` – only (c), that no new response becomes
-owed – and fairness is an assumption.  It speaks of the requester of the torn-down writer
-itself; for a requester upstream of a node see `C03.teardown_releases_upstream_partial`.
-`Reader.Receive` is modelled with its window (C01: `pop` / `deliver`): answers that were popped
-before the teardown and not yet delivered are in `flight`; their delivery is a fair step, counted
-in `μ`, so the statement holds with answers in flight at the torn-down writer too. -/
-theorem C03.teardown_releases_partial (t : Topo) (h : List Teardown.Step) (hs : RunNoSteal h) (w : WId)
-    (ht : TornDown ((Teardown.run .discard t {} h).comp w)) :
-    C03.Releases ((Teardown.run .discard t {} h).comp w) := by
-  have hi := cinv_reach t h hs w
-  have hb : Backed ((Teardown.run .discard t {} h).comp w) :=
-    backed_run .discard t {} h (fun _ => backed_init) w
+namespace Uniflow.TeardownProofs
+
+theorem releases_state (c : Comp) (hi : CInv c) (hb : Backed c) (ht : TornDown c) : C03.Releases c := by
   refine ⟨enabled _ hi hb ht, fun ho hen => (recv_decreases _ hi ho hen).1,
     fun hc he => (exit_decreases _ hc he).1,
     fun r hr hnd hd => (drop_decreases _ hi hb r hr hnd hd).1,
     fun r hr hnd hd => (deliver_decreases _ hi hb r hr hnd hd).1, torn_no_accept _ ht, ?_⟩
-  obtain ⟨cs, f, l, o, i⟩ := release (mu ((Teardown.run .discard t {} h).comp w)) _ (Nat.le_refl _) hi hb ht
+  obtain ⟨cs, f, l, o, i⟩ := release (mu c) _ (Nat.le_refl _) hi hb ht
   exact ⟨cs, f, l, o, got_shape _ i⟩
+
+theorem releases_any (t : Topo) (s : Sys) (w : WId) (d : Bool) (hg : Torn d (s.comp w)) :
+    C03.ReleasesUnderAnySchedule (RunQ (After w d)) t s w := by
+  intro h' hq
+  obtain ⟨h1, h2⟩ := sys_run_le t w d h' s hg hq
+  refine ⟨h2.torn, h1, ?_, fun ho => fair_progress _ h2.inv h2.backed h2.torn ho, got_shape _ h2.inv⟩
+  intro hm
+  have h0 : mu ((Teardown.run .discard t s h').comp w) = 0 := by omega
+  simp only [mu] at h0
+  omega
+
+theorem torn_reach (t : Topo) (h : List Teardown.Step) (hs : RunNoSteal h) (w : WId)
+    (ht : TornDown ((Teardown.run .discard t {} h).comp w)) :
+    Torn ((Teardown.run .discard t {} h).comp w).w.done ((Teardown.run .discard t {} h).comp w) :=
+  ⟨cinv_reach t h hs w, backed_run .discard t {} h (fun _ => backed_init) w, ht, fun e => e⟩
+
+/-- On a closed writer every step but a `steal` is allowed. -/
+theorem after_of_nosteal (w : WId) (h' : List Teardown.Step) (hs : RunNoSteal h') : RunQ (After w true) h' := by
+  intro st hst
+  have := hs st hst
+  cases st with
+  | prim x c => exact ⟨this, fun _ e => by cases e⟩
+  | fwd _ _ => trivial
+  | bwd _ => trivial
+  | fwdEnd _ _ => trivial
+  | sinkAnswer _ _ => trivial
+  | bwdLate _ => trivial
+  | down _ => trivial
+
+/-- The continuations considered for a writer whose readers were closed and that is not closed
+itself: nobody else consumes from a `Receive()` channel, and `w` is not wired to a further reader. -/
+def NoRelinkOf (w : WId) (h' : List Teardown.Step) : Prop :=
+  RunNoSteal h' ∧ ∀ r, Teardown.Step.prim w (.w (.link r)) ∉ h'
+
+theorem after_of_norelink (w : WId) (d : Bool) (h' : List Teardown.Step) (hs : NoRelinkOf w h') : RunQ (After w d) h' := by
+  intro st hst
+  have h1 := hs.1 st hst
+  cases st with
+  | prim x c =>
+    refine ⟨h1, ?_⟩
+    intro hx _ r hc
+    subst hx; subst hc
+    exact hs.2 r hst
+  | fwd _ _ => trivial
+  | bwd _ => trivial
+  | fwdEnd _ _ => trivial
+  | sinkAnswer _ _ => trivial
+  | bwdLate _ => trivial
+  | down _ => trivial
+
+end Uniflow.TeardownProofs
+
+/-- **No step of anybody increases the measure of a torn-down writer.**  In every reachable state
+in which writer `w` is torn down, every step `st` of `Teardown.Step` – a critical section, channel
+operation or goroutine of any thread on any writer or reader (on `w` itself too: late answers,
+answers in flight, closes, unlinks, refused writes, the requester's receive), a node loop
+iteration, a sink's answer, a further teardown action – leaves `μ` of `w` where it was or lower
+and leaves `w` torn down; if the step is an enabled fair step of `w` (`fairStepOf`), `μ` strictly
+decreases.  Excluded (`After`): a second consumer of a `Receive()` channel (`steal`, as in all of
+C03) and, only if `w` is not closed itself, wiring `w` to a further reader (`link` on `w`; on a
+closed writer `Link` refuses and is allowed).  That exclusion is necessary:
+`C03.relink_can_increase`. -/
+theorem C03.other_steps_do_not_increase (t : Topo) (h : List Teardown.Step) (hs : RunNoSteal h) (w : WId)
+    (ht : TornDown ((Teardown.run .discard t {} h).comp w)) (st : Teardown.Step)
+    (hst : StepQ (After w ((Teardown.run .discard t {} h).comp w).w.done) st) :
+    mu ((Teardown.step .discard t (Teardown.run .discard t {} h) st).1.comp w) ≤ mu ((Teardown.run .discard t {} h).comp w) ∧
+    TornDown ((Teardown.step .discard t (Teardown.run .discard t {} h) st).1.comp w) ∧
+    (fairStepOf w (Teardown.run .discard t {} h) st = true →
+      mu ((Teardown.step .discard t (Teardown.run .discard t {} h) st).1.comp w) < mu ((Teardown.run .discard t {} h).comp w)) := by
+  obtain ⟨h1, h2⟩ := sys_step_le t _ w _ st (torn_reach t h hs w ht) hst
+  refine ⟨?_, h2.torn, ?_⟩
+  · split at h1 <;> omega
+  · intro hf
+    rw [hf] at h1
+    simp only [if_true] at h1
+    omega
+
+/-- Non-vacuity: the writer is torn down by closing its reader, one response owed; a late answer of
+the closed reader (a foreign step on `w`) leaves `μ` at 5, the delivery of the held-back drop
+notice (a fair step of `w`) takes it to 3. -/
+theorem C03.other_steps_do_not_increase_nonvacuous :
+    let h : List Teardown.Step := [.prim 0 (.w (.link 0)), .prim 0 (.w (.write 7)), .down (.readerClose 0 0)]
+    ((Teardown.run .discard {} {} h).comp 0).w.done = false ∧
+    ((Teardown.run .discard {} {} h).comp 0).w.closed 0 = true ∧
+    mu ((Teardown.run .discard {} {} h).comp 0) = 5 ∧
+    fairStepOf 0 (Teardown.run .discard {} {} h) (.prim 0 (.w (.answer 0 (.val 1)))) = false ∧
+    mu ((Teardown.run .discard {} {} (h ++ [.prim 0 (.w (.answer 0 (.val 1)))])).comp 0) = 5 ∧
+    fairStepOf 0 (Teardown.run .discard {} {} h) (.prim 0 (.w (.deliverDrop 0))) = true ∧
+    mu ((Teardown.run .discard {} {} (h ++ [.prim 0 (.w (.deliverDrop 0))])).comp 0) = 3 := by
+  decide
+
+/-- **The exclusion of `link` is necessary**: a writer linked to readers 0 and 1, one request;
+reader 0 is unlinked and then closed (its drop notice, for a link generation that is gone, stays
+behind – it will be ignored), reader 1 is closed: every linked reader is closed, `μ = 5`.  Wiring
+the writer to the closed reader 0 again leaves every linked reader closed and raises `μ` to 6:
+the stale notice of reader 0 is counted again, because `μ` counts the notices of the *linked*
+readers.  It is the measure that moves, not the requester's fate: the continuation of
+`C03.relink_released` still releases it.  In the Go code `Writer.Link` is called only by
+`OutPort.Open`, in the loop right after it created the writer, and `Writer.Unlink` is called by
+nothing outside tests. -/
+theorem C03.relink_can_increase :
+    let h : List Teardown.Step := [.prim 0 (.w (.link 0)), .prim 0 (.w (.link 1)), .prim 0 (.w (.write 7)),
+      .prim 0 (.w (.unlink 0)), .down (.readerClose 0 0), .down (.readerClose 0 1)]
+    let c := (Teardown.run .discard {} {} h).comp 0
+    let c' := (Teardown.run .discard {} {} (h ++ [.prim 0 (.w (.link 0))])).comp 0
+    c.w.done = false ∧ c.w.readers = [1] ∧ c.w.closed 1 = true ∧ mu c = 5 ∧
+    c'.w.readers = [1, 0] ∧ c'.w.closed 0 = true ∧ c'.w.closed 1 = true ∧ mu c' = 6 := by
+  decide
+
+/-- … and the requester is released with `dropped` all the same, wherever the re-wiring `link`
+falls (before the closes, between them, after them) – replayed on the real code by the harness
+(`relink` in harness/c03/c03.go). -/
+theorem C03.relink_released :
+    let pre : List Teardown.Step := [.prim 0 (.w (.link 0)), .prim 0 (.w (.link 1)), .prim 0 (.w (.write 7)), .prim 0 (.w (.unlink 0))]
+    let post : List Teardown.Step := [.prim 0 (.w (.deliverDrop 0)), .prim 0 (.w (.deliverDrop 1)), .prim 0 .recv]
+    let l : Teardown.Step := .prim 0 (.w (.link 0))
+    ((Teardown.run .discard {} {} (pre ++ [l, .down (.readerClose 0 0), .down (.readerClose 0 1)] ++ post)).comp 0).got = [.got Resp.dropped] ∧
+    ((Teardown.run .discard {} {} (pre ++ [.down (.readerClose 0 0), l, .down (.readerClose 0 1)] ++ post)).comp 0).got = [.got Resp.dropped] ∧
+    ((Teardown.run .discard {} {} (pre ++ [.down (.readerClose 0 0), .down (.readerClose 0 1), l] ++ post)).comp 0).got = [.got Resp.dropped] := by
+  decide
+
+/-- **Teardown releases – a closed writer.**  For every history, every writer `w` that has been
+closed (`Writer.Close`, `OutPort.Close`, a node's close, a process exit): `C03.Releases` of its
+state, and `C03.ReleasesUnderAnySchedule` for *every* continuation in which the requester stays
+the only consumer of its `Receive()` channel (`RunNoSteal`, the standing assumption of C03) – no
+other restriction on what the other threads, the nodes, the sinks and further teardown actions
+do.  What remains assumed is weak fairness of the Go scheduler towards the fair steps of `w` (see
+`C03.ReleasesUnderAnySchedule`): the number of them that can be taken is bounded by `μ` at
+teardown time whatever is interleaved, and while anything is owed one of them is enabled.
+`Reader.Receive` is modelled with its window (C01: `pop` / `deliver`). -/
+theorem C03.teardown_releases (t : Topo) (h : List Teardown.Step) (hs : RunNoSteal h) (w : WId)
+    (hd : ((Teardown.run .discard t {} h).comp w).w.done = true) :
+    C03.Releases ((Teardown.run .discard t {} h).comp w) ∧
+    C03.ReleasesUnderAnySchedule RunNoSteal t (Teardown.run .discard t {} h) w := by
+  have hT := torn_reach t h hs w (Or.inl hd)
+  refine ⟨releases_state _ hT.inv hT.backed hT.torn, ?_⟩
+  rw [hd] at hT
+  intro h' hs'
+  exact releases_any t _ w true hT h' (after_of_nosteal w h' hs')
 
 /-- Non-vacuity: a node between a source writer (0) and a sink; two requests in flight; the
 process exits (sink reader, node out-writer, node in-reader, source writer closed in that order).
-The source writer is torn down with two responses owed. -/
-theorem C03.teardown_releases_partial_nonvacuous :
+The source writer is torn down with two responses owed, `μ = 5`.  A continuation in which foreign
+steps – a late answer on the closed writer, an iteration of the node's backward loop, an attempt
+to wire the closed writer to a further reader, a refused write – are interleaved with three fair
+steps of writer 0 ends with nothing owed: the requester has received `dropped` twice. -/
+theorem C03.teardown_releases_nonvacuous :
     let t : Topo := { consumer := fun w => if w = 1 then .node 0 0 else .requester,
                       listener := fun w _ => if w = 0 then .node 1 else .sink 0,
                       procs := [[.writer 0, .reader 0 0, .writer 1, .reader 1 0]] }
     let h : List Teardown.Step := [.prim 0 (.w (.link 0)), .prim 1 (.w (.link 0)), .prim 0 (.w (.write 7)), .fwd 0 0,
       .prim 0 (.w (.write 8)), .fwd 0 0, .down (.processExit 0)]
+    let h' : List Teardown.Step := [.prim 0 (.w (.answer 0 (.val 1))), .prim 0 .recv, .bwd 1, .prim 0 (.w (.link 3)),
+      .prim 0 .recv, .prim 0 (.w (.write 9)), .prim 0 .pumpExit]
     ((Teardown.run .discard t {} h).comp 0).w.done = true ∧
-    ((Teardown.run .discard t {} h).comp 0).outstanding = 2 ∧ mu ((Teardown.run .discard t {} h).comp 0) = 5 := by
-  decide
+    ((Teardown.run .discard t {} h).comp 0).outstanding = 2 ∧ mu ((Teardown.run .discard t {} h).comp 0) = 5 ∧
+    RunNoSteal h' ∧ fairTaken t 0 (Teardown.run .discard t {} h) h' = 3 ∧
+    mu ((Teardown.run .discard t (Teardown.run .discard t {} h) h').comp 0) = 0 ∧
+    ((Teardown.run .discard t (Teardown.run .discard t {} h) h').comp 0).got = [.got Resp.dropped, .got Resp.dropped] := by
+  refine ⟨by decide, by decide, by decide, ?_, by decide, by decide, by decide⟩
+  intro st hst
+  simp only [List.mem_cons, List.not_mem_nil, or_false] at hst
+  rcases hst with rfl | rfl | rfl | rfl | rfl | rfl | rfl <;> simp [StepNoSteal]
 
-/-- … and one where the writer stays open and only its reader is closed: the release needs the
-held-back drop notices (`μ = 2·2 + 0 + 2 + 2 + 1`). -/
-theorem C03.teardown_releases_partial_nonvacuous_reader :
+/-- The full statement for a writer that is torn down because every reader linked to it was
+closed while it stays open itself (`Reader.Close`, `InPort.Close`): the same as
+`C03.teardown_releases`, for every continuation without a second consumer in which `w` stays torn
+down – wiring `w` to further readers included –, with some bound in place of `μ`. -/
+def C03.teardown_releases_readers_full : Prop :=
+  ∀ (t : Topo) (h : List Teardown.Step), RunNoSteal h → ∀ w,
+    TornDown ((Teardown.run .discard t {} h).comp w) →
+    C03.Releases ((Teardown.run .discard t {} h).comp w) ∧
+    ∃ B, ∀ h', RunNoSteal h' →
+      (∀ k, TornDown ((Teardown.run .discard t (Teardown.run .discard t {} h) (h'.take k)).comp w)) →
+      B ≤ fairTaken t w (Teardown.run .discard t {} h) h' →
+      ((Teardown.run .discard t (Teardown.run .discard t {} h) h').comp w).outstanding = 0
+
+/-- **Teardown releases – a writer all of whose readers are closed** (or that is closed: any
+torn-down writer).  `C03.Releases` of its state and `C03.ReleasesUnderAnySchedule` for every
+continuation without a second consumer in which `w` is not wired to a further reader
+(`NoRelinkOf w`: no `link` step *on `w`*; everything else, on `w` and everywhere else, is allowed).
+`_partial` with respect to `C03.teardown_releases_readers_full`: a `link` on `w` can raise `μ`
+(`C03.relink_can_increase`; by a stale drop notice or answer in flight of the reader that is
+linked, which is then ignored) and, if the reader is open, ends the torn-down condition itself;
+continuations with such steps are not covered by the bound (the concrete ones of
+`C03.relink_released` do release; the Go code links a writer only inside `OutPort.Open`).
+Fairness is assumed as in `C03.teardown_releases`. -/
+theorem C03.teardown_releases_readers_partial (t : Topo) (h : List Teardown.Step) (hs : RunNoSteal h) (w : WId)
+    (ht : TornDown ((Teardown.run .discard t {} h).comp w)) :
+    C03.Releases ((Teardown.run .discard t {} h).comp w) ∧
+    C03.ReleasesUnderAnySchedule (NoRelinkOf w) t (Teardown.run .discard t {} h) w := by
+  have hT := torn_reach t h hs w ht
+  refine ⟨releases_state _ hT.inv hT.backed hT.torn, ?_⟩
+  intro h' hs'
+  exact releases_any t _ w _ hT h' (after_of_norelink w _ h' hs')
+
+/-- Non-vacuity: the writer stays open and only its reader is closed: the release needs the
+held-back drop notices (`μ = 2·2 + 0 + 2 + 2 + 1`).  A continuation with foreign steps on the
+same writer (a late answer of the closed reader, a refused write, the reader unlinked) between
+the fair ones ends with nothing owed. -/
+theorem C03.teardown_releases_readers_partial_nonvacuous :
     let h : List Teardown.Step := [.prim 0 (.w (.link 0)), .prim 0 (.w (.write 7)), .prim 0 (.w (.write 8)), .down (.readerClose 0 0)]
+    let h' : List Teardown.Step := [.prim 0 (.w (.answer 0 (.val 1))), .prim 0 (.w (.deliverDrop 0)), .prim 0 (.w (.write 9)),
+      .prim 0 .recv, .prim 0 (.w (.deliverDrop 0)), .prim 0 (.w (.unlink 0)), .prim 0 .recv]
     ((Teardown.run .discard {} {} h).comp 0).w.done = false ∧
     ((Teardown.run .discard {} {} h).comp 0).w.closed 0 = true ∧
-    ((Teardown.run .discard {} {} h).comp 0).outstanding = 2 ∧ mu ((Teardown.run .discard {} {} h).comp 0) = 9 := by
-  decide
+    ((Teardown.run .discard {} {} h).comp 0).outstanding = 2 ∧ mu ((Teardown.run .discard {} {} h).comp 0) = 9 ∧
+    NoRelinkOf 0 h' ∧ fairTaken {} 0 (Teardown.run .discard {} {} h) h' = 4 ∧
+    ((Teardown.run .discard {} (Teardown.run .discard {} {} h) h').comp 0).outstanding = 0 ∧
+    ((Teardown.run .discard {} (Teardown.run .discard {} {} h) h').comp 0).got = [.got Resp.dropped, .got Resp.dropped] := by
+  refine ⟨by decide, by decide, by decide, by decide, ⟨?_, ?_⟩, by decide, by decide, by decide⟩
+  · intro st hst
+    simp only [List.mem_cons, List.not_mem_nil, or_false] at hst
+    rcases hst with rfl | rfl | rfl | rfl | rfl | rfl | rfl <;> simp [StepNoSteal]
+  · intro r hst
+    simp only [List.mem_cons, List.not_mem_nil, or_false] at hst
+    rcases hst with e | e | e | e | e | e | e <;> cases e
 
 /-- … and one with an answer in flight at the torn-down writer: the reader's owner has popped the
 request (`Reader.Receive` up to the release of `r.mu`) when the reader is closed, so `Reader.Close`
 finds nothing pending and spawns no drop notice; the only enabled fair step is the delivery of the
 answer in flight, which is credited to the row of its own write: the requester receives the real
 answer. -/
-theorem C03.teardown_releases_partial_nonvacuous_flight :
+theorem C03.teardown_releases_readers_partial_nonvacuous_flight :
     let h : List Teardown.Step := [.prim 0 (.w (.link 0)), .prim 0 (.w (.write 7)), .prim 0 (.w (.pop 0 (.val 5))),
       .down (.readerClose 0 0)]
     ((Teardown.run .discard {} {} h).comp 0).w.closed 0 = true ∧
     (((Teardown.run .discard {} {} h).comp 0).w.flight 0).length = 1 ∧
     (((Teardown.run .discard {} {} h).comp 0).w.drops 0).length = 0 ∧
     ((Teardown.run .discard {} {} h).comp 0).outstanding = 1 ∧ mu ((Teardown.run .discard {} {} h).comp 0) = 5 ∧
+    fairTaken {} 0 (Teardown.run .discard {} {} h) [.prim 0 (.w (.deliver 0 0)), .prim 0 .recv] = 2 ∧
     ((Teardown.run .discard {} {} (h ++ [.prim 0 (.w (.deliver 0 0)), .prim 0 .recv])).comp 0).got = [.got (.val 5)] := by
   decide
 
@@ -392,7 +624,8 @@ with nothing the node had taken from its in-reader left waiting.  Every such req
 been answered upstream (`answer r a` on `wi`, in the order the node read them): with the
 response the backward loop still received, or – `Tracer.Drop`, when the channel closed on it –
 with `dropped`.  The steps are enabled one after the other (fairness of those two goroutines is
-the assumption, as in `C03.Releases`).
+the assumption, as in `C03.Releases`); that no step of anybody else undoes their progress, so
+that the bound holds under every schedule, is `C03.upstream_other_steps_do_not_increase`.
 
 `_partial` with respect to the property: the theorem ends at the node's `answer` calls; that
 each of them completes the upstream row of the request it belongs to, so that the requester of
@@ -424,6 +657,133 @@ theorem C03.teardown_releases_upstream_partial_nonvacuous :
       = [.got Resp.dropped, .got Resp.dropped] := by
   decide
 
+/-- **The scheduler-independent statement for the node.**  `s` is a state in which the out-writer
+`wo` of the node with in-reader `(wi, r)` is closed.  `nu = buffered responses of wo + [wo's pump
+goroutine still running] + [a request the node took still waits for its answer] ≤ buffered + 2`.
+For every continuation `h'` without a second consumer – any interleaving of steps of any thread,
+node (this one's forward loop included), sink, and of further teardown actions:
+* `wo` stays closed;
+* (number of enabled fair steps of the node taken along `h'`) + (`nu` at the end) ≤ (`nu` at the
+  start): no step of anybody increases `nu` – in particular none adds a waiting request: the
+  forward loop's write on the closed `wo` is refused and the request recorded with itself as its
+  answer –, and the node's two fair steps (`fairUp`: a backward-loop iteration that receives a
+  buffered response or finds the channel closed while a request waits; the pump goroutine of
+  `wo` returning) strictly decrease it while enabled;
+* so once `buffered + 2` of them have been taken, whatever else ran in between, nothing the node
+  took from its in-reader is left: every such request has been answered upstream, in read order;
+* while a taken request waits one of the two is enabled (weak fairness towards these two
+  goroutines is what is assumed);
+* no waiting request = nothing left at all (answers are passed up as soon as they are known). -/
+def C03.UpstreamUnderAnySchedule (t : Topo) (s : Sys) (wo wi : WId) (r : RId) : Prop :=
+  ∀ h' : List Teardown.Step, RunNoSteal h' →
+    ((Teardown.run .discard t s h').comp wo).w.done = true ∧
+    upTaken t wo wi r s h' + nu (Teardown.run .discard t s h') wo wi r ≤ nu s wo wi r ∧
+    ((s.comp wo).p.buf.length + 2 ≤ upTaken t wo wi r s h' → (Teardown.run .discard t s h').reads wi r = []) ∧
+    (waiting ((Teardown.run .discard t s h').reads wi r) > 0 →
+      fairUp wo wi r (Teardown.run .discard t s h') (.bwd wo) = true ∨
+      fairUp wo wi r (Teardown.run .discard t s h') (.prim wo .pumpExit) = true) ∧
+    (waiting ((Teardown.run .discard t s h').reads wi r) = 0 → (Teardown.run .discard t s h').reads wi r = [])
+
+/-- **No step of anybody undoes the node's progress** – `C03.UpstreamUnderAnySchedule` holds in
+every reachable state in which the out-writer of a node is closed.  The wiring is consistent
+(`hl`: the reader whose requests the backward loop of `wo` answers is the one whose forward loop
+writes to `wo` – they are the two loops of one node).  With it the existence statement
+`C03.teardown_releases_upstream_partial` becomes: under weak fairness towards the node's two
+goroutines, for every schedule. -/
+theorem C03.upstream_other_steps_do_not_increase (t : Topo) (ho : t.handOver = true) (h : List Teardown.Step) (hs : RunNoSteal h)
+    (wo wi : WId) (r : RId) (hc : t.consumer wo = .node wi r) (hl : t.listener wi r = .node wo) (hne : wo ≠ wi)
+    (hd : ((Teardown.run .discard t {} h).comp wo).w.done = true) :
+    C03.UpstreamUnderAnySchedule t (Teardown.run .discard t {} h) wo wi r := by
+  have hg : UpInv (Teardown.run .discard t {} h) wo wi r :=
+    ⟨cinv_reach t h hs wo, hd, by rw [run_detached _ _ _ _ ho], flushed_run t wi r h {} (fun e rest he => by cases he)⟩
+  intro h' hs'
+  obtain ⟨h1, h2⟩ := up_run_le t ho wo wi r hc hl hne h' _ hg hs'
+  refine ⟨h2.done, h1, ?_, fun hw => up_progress h2 hw, fun hw => flushed_nil _ h2.flushed hw⟩
+  intro hm
+  have hle := nu_le (Teardown.run .discard t {} h) wo wi r
+  exact up_done h2 (by omega)
+
+/-- Non-vacuity: the path of `C03.teardown_releases_upstream_partial_nonvacuous` with two responses
+buffered in the closed out-writer (the sink's answer, and `dropped` for the request pending at the
+close), two requests waiting and a further request handed to the node (`nu = 2 + 1 + 1`); the
+continuation interleaves foreign steps – the node's forward loop taking that request (refused by
+the closed out-writer, echoed), a late answer of the sink, the requester's receives, a new
+request – with the node's fair steps: backward loop (the buffered response), pump exit (the
+buffered `dropped` is discarded), backward loop (channel closed: `Tracer.Drop`).  Nothing is left waiting and the requester on writer 0 –
+never closed – has the response, the echo and `dropped`, in the order the node read them. -/
+theorem C03.upstream_other_steps_do_not_increase_nonvacuous :
+    let t : Topo := { consumer := fun w => if w = 1 then .node 0 0 else .requester,
+                      listener := fun w _ => if w = 0 then .node 1 else .sink 0 }
+    let h : List Teardown.Step := [.prim 0 (.w (.link 0)), .prim 1 (.w (.link 0)), .prim 0 (.w (.write 7)), .fwd 0 0,
+      .sinkAnswer 0 (.val 70), .prim 0 (.w (.write 8)), .fwd 0 0, .prim 0 (.w (.write 9)), .down (.writerClose 1)]
+    let h' : List Teardown.Step := [.fwd 0 0, .sinkAnswer 0 (.val 80), .bwd 1, .prim 0 .recv, .prim 0 (.w (.write 10)),
+      .prim 1 .pumpExit, .bwd 1, .prim 0 .recv, .prim 0 .recv]
+    t.handOver = true ∧ t.consumer 1 = .node 0 0 ∧ t.listener 0 0 = .node 1 ∧
+    ((Teardown.run .discard t {} h).comp 1).w.done = true ∧
+    nu (Teardown.run .discard t {} h) 1 0 0 = 4 ∧
+    RunNoSteal h' ∧ upTaken t 1 0 0 (Teardown.run .discard t {} h) h' = 3 ∧
+    (Teardown.run .discard t (Teardown.run .discard t {} h) h').reads 0 0 = [] ∧
+    ((Teardown.run .discard t (Teardown.run .discard t {} h) h').comp 0).got
+      = [.got (.val 70), .got Resp.dropped, .got (.val 9)] := by
+  refine ⟨by decide, by decide, by decide, by decide, by decide, ?_, by decide, by decide, by decide⟩
+  intro st hst
+  simp only [List.mem_cons, List.not_mem_nil, or_false] at hst
+  rcases hst with rfl | rfl | rfl | rfl | rfl | rfl | rfl | rfl | rfl <;> simp [StepNoSteal]
+
+/-- **What the upstream writer awaits, under any schedule.**  For histories in which the wiring is
+consistent and nobody but the node answers on the node's in-reader (`stepNoForeign`), and every
+continuation `h'` of the same kind – whatever is interleaved: in every state, while `r` is open,
+the number of answers `wi` awaits from `r` equals the requests the node holds (handed to its
+reader and not yet taken, plus taken and not yet answered), and `wi`'s machine is the image of a
+C01 specification state.  Hence whenever nothing the node took is left (`reads = []`, reached
+after at most `buffered + 2` fair steps of the node under any schedule:
+`C03.upstream_other_steps_do_not_increase`), `wi` awaits from `r` only what the forward loop has
+not taken yet.  `_partial`: the hypothesis that nobody but the node answers on its in-reader. -/
+theorem C03.upstream_awaits_any_schedule_partial (t : Topo) (h : List Teardown.Step)
+    (wo wi : WId) (r : RId) (hl : t.listener wi r = .node wo) (hne : wo ≠ wi)
+    (hf : ∀ st ∈ h, stepNoForeign wi r st) :
+    ∀ h' : List Teardown.Step, (∀ st ∈ h', stepNoForeign wi r st) →
+      (((Teardown.run .discard t (Teardown.run .discard t {} h) h').comp wi).w.closed r = false →
+        (((Teardown.run .discard t (Teardown.run .discard t {} h) h').comp wi).w.pend r).length =
+          ((Teardown.run .discard t (Teardown.run .discard t {} h) h').inbox wi r).length +
+          ((Teardown.run .discard t (Teardown.run .discard t {} h) h').reads wi r).length) ∧
+      Backed ((Teardown.run .discard t (Teardown.run .discard t {} h) h').comp wi) := by
+  intro h' hf2
+  have hf' : ∀ st ∈ h ++ h', stepNoForeign wi r st := by
+    intro st hst
+    rcases List.mem_append.1 hst with hst | hst
+    · exact hf st hst
+    · exact hf2 st hst
+  have hu0 : Upstream ({} : Sys) wi r := by
+    unfold Upstream OwedEq; intro _; rfl
+  obtain ⟨hu, hb⟩ := upstream_run t wi r wo hl hne (h ++ h') {} (fun _ => backed_init) (by intro k e he; cases he) hf' hu0
+  rw [run_append] at hu hb
+  exact ⟨hu, hb wi⟩
+
+/-- Non-vacuity: the history and the continuation of
+`C03.upstream_other_steps_do_not_increase_nonvacuous` satisfy the hypotheses (the sink's answers
+are on writer 1's reader, not on the node's in-reader); at the end the node holds nothing and
+writer 0, whose reader is open, awaits exactly the one request still in the node's inbox. -/
+theorem C03.upstream_awaits_any_schedule_partial_nonvacuous :
+    let t : Topo := { consumer := fun w => if w = 1 then .node 0 0 else .requester,
+                      listener := fun w _ => if w = 0 then .node 1 else .sink 0 }
+    let h : List Teardown.Step := [.prim 0 (.w (.link 0)), .prim 1 (.w (.link 0)), .prim 0 (.w (.write 7)), .fwd 0 0,
+      .sinkAnswer 0 (.val 70), .prim 0 (.w (.write 8)), .fwd 0 0, .prim 0 (.w (.write 9)), .down (.writerClose 1)]
+    let h' : List Teardown.Step := [.fwd 0 0, .sinkAnswer 0 (.val 80), .bwd 1, .prim 0 .recv, .prim 0 (.w (.write 10)),
+      .prim 1 .pumpExit, .bwd 1, .prim 0 .recv, .prim 0 .recv]
+    (∀ st ∈ h, stepNoForeign 0 0 st) ∧ (∀ st ∈ h', stepNoForeign 0 0 st) ∧
+    ((Teardown.run .discard t (Teardown.run .discard t {} h) h').comp 0).w.closed 0 = false ∧
+    (((Teardown.run .discard t (Teardown.run .discard t {} h) h').comp 0).w.pend 0).length = 1 ∧
+    ((Teardown.run .discard t (Teardown.run .discard t {} h) h').inbox 0 0).length = 1 ∧
+    (Teardown.run .discard t (Teardown.run .discard t {} h) h').reads 0 0 = [] := by
+  refine ⟨?_, ?_, by decide, by decide, by decide, by decide⟩
+  · intro st hst
+    simp only [List.mem_cons, List.not_mem_nil, or_false] at hst
+    rcases hst with rfl | rfl | rfl | rfl | rfl | rfl | rfl | rfl | rfl <;> simp [stepNoForeign]
+  · intro st hst
+    simp only [List.mem_cons, List.not_mem_nil, or_false] at hst
+    rcases hst with rfl | rfl | rfl | rfl | rfl | rfl | rfl | rfl | rfl <;> simp [stepNoForeign]
+
 /-- **… and what the upstream writer then still awaits.**  Same situation, for histories in which
 the wiring is consistent (`wi`'s reader `r` is listened to by the node whose out-writer is `wo`),
 and nobody but the node answers on the node's in-reader (`stepNoForeign`): throughout, while
@@ -434,7 +794,9 @@ from `r` only the requests the forward loop has not taken yet (each of which it 
 once: the closed out-writer accepts nothing, the request is echoed) – and `wi`'s machine is the
 image of a C01 specification state satisfying C01's invariant, in which the rows that owe `r` an
 answer are exactly those requests (`OweOK`).  So no request the node had taken keeps the
-requester of `wi` waiting.  `_partial`: the two hypotheses (wiring, no foreign answers). -/
+requester of `wi` waiting.  `_partial`: the hypothesis that nobody but the node answers on its
+in-reader (the wiring hypothesis says that the two loops belong to one node).  For every
+continuation instead of the one schedule: `C03.upstream_awaits_any_schedule_partial`. -/
 theorem C03.teardown_releases_upstream_awaits_partial (t : Topo) (ho : t.handOver = true) (h : List Teardown.Step) (hs : RunNoSteal h)
     (wo wi : WId) (r : RId) (hc : t.consumer wo = .node wi r) (hl : t.listener wi r = .node wo) (hne : wo ≠ wi)
     (hf : ∀ st ∈ h, stepNoForeign wi r st)
